@@ -536,6 +536,55 @@ impl fmt::Debug for RawDebug {
     }
 }
 
+/// A value whose formatting code emits: `Display` runs the thread's re-emit hook (if one is installed and no hook
+/// is already running on this thread), then prints the text. The hook is cloned out of the thread-local cell
+/// before it is called — no borrow of harness state is held while user-visible code runs.
+#[derive(Clone, PartialEq)]
+pub struct Reemit(pub String);
+
+thread_local! {
+    static REEMIT_HOOK: std::cell::RefCell<Option<std::rc::Rc<dyn Fn()>>> = const { std::cell::RefCell::new(None) };
+    static REEMIT_DEPTH: std::cell::Cell<u32> = const { std::cell::Cell::new(0) };
+    static REEMIT_FIRED: std::cell::Cell<u32> = const { std::cell::Cell::new(0) };
+}
+
+impl fmt::Display for Reemit {
+    fn fmt(&self, f: &mut fmt::Formatter) -> fmt::Result {
+        if REEMIT_DEPTH.with(|d| d.get()) == 0 {
+            let hook = REEMIT_HOOK.with(|h| h.borrow().clone());
+            if let Some(hook) = hook {
+                struct Depth;
+                impl Drop for Depth {
+                    fn drop(&mut self) {
+                        REEMIT_DEPTH.with(|d| d.set(d.get() - 1));
+                    }
+                }
+                REEMIT_DEPTH.with(|d| d.set(d.get() + 1));
+                let _depth = Depth;
+                REEMIT_FIRED.with(|n| n.set(n.get() + 1));
+                hook();
+            }
+        }
+        f.write_str(&self.0)
+    }
+}
+
+/// Run `body` with `hook` installed as this thread's re-emit hook; returns the result and how many times the hook
+/// was run (= how many times a `Reemit` value was formatted).
+pub fn with_reemit_hook<R>(hook: std::rc::Rc<dyn Fn()>, body: impl FnOnce() -> R) -> (R, u32) {
+    struct Uninstall;
+    impl Drop for Uninstall {
+        fn drop(&mut self) {
+            REEMIT_HOOK.with(|h| *h.borrow_mut() = None);
+        }
+    }
+    REEMIT_FIRED.with(|n| n.set(0));
+    REEMIT_HOOK.with(|h| *h.borrow_mut() = Some(hook));
+    let _u = Uninstall;
+    let r = body();
+    (r, REEMIT_FIRED.with(|n| n.get()))
+}
+
 /// An error with a `source()` chain.
 #[derive(Debug, Clone, PartialEq)]
 pub struct Chain(pub String, pub Option<Box<Chain>>);
@@ -573,6 +622,10 @@ pub enum Val {
     F64(f64),
     Str(String),
     Disp(String),
+    /// `Value::from_display` of a value whose `Display` impl first runs the thread's re-emit hook (stream
+    /// c13_otlp, `otlp-re` cases: it emits another event through the emitter that is formatting it) and then
+    /// prints the text. Without a hook it is a plain `Display` value.
+    Reemit(String),
     Dbg(String),
     Err(Vec<String>),
     Lvl(emit::Level),
@@ -606,6 +659,7 @@ macro_rules! arr_value {
 /// The realised form of a `Val`: owns whatever the borrowed `emit::Value` points into.
 pub enum Real {
     Plain(Val),
+    Re(Reemit),
     Dbg(RawDebug),
     Err(Chain),
     Tid(emit::TraceId),
@@ -616,6 +670,7 @@ impl Real {
     pub fn new(v: &Val) -> Option<Real> {
         Some(match v {
             Val::Dbg(s) => Real::Dbg(RawDebug(s.clone())),
+            Val::Reemit(s) => Real::Re(Reemit(s.clone())),
             Val::Err(msgs) => Real::Err(Chain::from_msgs(msgs)?),
             Val::Tid(n) => Real::Tid(emit::TraceId::from_u128(*n)?),
             Val::Sid(n) => Real::Sid(emit::SpanId::from_u64(*n)?),
@@ -638,6 +693,7 @@ impl Real {
             Real::Plain(Val::ArrI64(v)) => arr_value!(v, i64),
             Real::Plain(Val::ArrF64(v)) => arr_value!(v, f64),
             Real::Dbg(d) => Value::from_debug(d),
+            Real::Re(r) => Value::from_display(r),
             Real::Err(c) => Value::capture_error(c),
             Real::Tid(t) => emit::value::ToValue::to_value(t),
             Real::Sid(s) => emit::value::ToValue::to_value(s),
@@ -665,6 +721,7 @@ impl Val {
             Val::Str(s) => Sexp::tagged("str", vec![Sexp::str(s)]),
             Val::Disp(s) => Sexp::tagged("disp", vec![Sexp::str(s)]),
             Val::Dbg(s) => Sexp::tagged("dbg", vec![Sexp::str(s)]),
+            Val::Reemit(s) => Sexp::tagged("reemit", vec![Sexp::str(s)]),
             Val::Err(msgs) => Sexp::tagged("err", msgs.iter().map(|m| Sexp::str(m)).collect()),
             Val::Lvl(l) => Sexp::tagged("lvl", vec![Sexp::atom(level_name(*l))]),
             Val::Tid(n) => Sexp::tagged("tid", vec![Sexp::num(n)]),
@@ -706,6 +763,7 @@ impl Val {
             ("str", 1) => Some(Val::Str(args[0].as_string()?)),
             ("disp", 1) => Some(Val::Disp(args[0].as_string()?)),
             ("dbg", 1) => Some(Val::Dbg(args[0].as_string()?)),
+            ("reemit", 1) => Some(Val::Reemit(args[0].as_string()?)),
             ("err", n) if n >= 1 => Some(Val::Err(args.iter().map(|a| a.as_string()).collect::<Option<_>>()?)),
             ("lvl", 1) => Some(Val::Lvl(match args[0].as_atom()? {
                 "debug" => emit::Level::Debug,
